@@ -240,7 +240,8 @@ LEVEL_TEXT = ('A checker for the counter protocol is proved sound in Coq for eve
               'no may-rewrite statement is reachable under the query flag, and an out-of-range counter ends in an error (TransMaxInstanceError, '
               'except for five listed renaming transformations) with no rewrite; --warn-on-counter-out-of-bounds changes that only for the '
               'transformations the tool\'s help text names; the helper checkCounterValidity has the truth table the skeletons assume; the driver '
-              'never opens the output under the query flag; names are registered once. The counter itself: a model of the int extraction used for '
+              'never opens the output under the query flag; nothing in the manager rewrites the counters and no HandleTopLevelDecl stops the parse before the '
+              'protocol clauses; names are registered once. The counter itself: a model of the int extraction used for '
               '--counter= / --to-counter= is proved to read every argument as exactly the integer it denotes or to refuse it, and is compared on '
               'every run with the real ClangDelta.cpp compiled verbatim (g++) against a stand-in manager.')
 LEVEL_NOTE = ('Relative to the extractor (the only tie for the transformations; clang_delta cannot be built offline): statement subset parser and '
